@@ -17,6 +17,18 @@ from checks.c07 import ancestor_names
 PROP = "C15"
 ABOVE = ancestor_names()            # names of the python worker, its ancestors, and "vdrive"
 
+
+def pid1_name():
+    try:
+        with open("/proc/1/stat", "rb") as f:
+            st = f.read()
+        return st[st.index(b"(") + 1:st.rindex(b")")]
+    except OSError:
+        return None
+
+
+PID1 = pid1_name()
+
 NAME_POOL = [b"alpha", b"alph", b"alphab", b"a", b"with space", b"two  spaces", b"(paren)", b"par)en", b"pa(ren", b"))((", b"fifteen-bytes-xx", b"fifteen-bytes-xxyz",
              b"x" * 15, b"x" * 14, b"UPPER", b"upper", b"dot.name", b"dash-name", b"tab\there", b"trail ", b" lead", b"0", b"12345", b"name:colon", b"cron", b"sshd",
              b"systemd", b"init", b"S", b"R (x) S", b") R 1 ("]
@@ -34,7 +46,7 @@ def make_cases(tr):
         depth = rng.randrange(1, 13)
         chain = [rng.choice(NAME_POOL) for _ in range(depth)]
         leaf = rng.choice(NAME_POOL)
-        mode = rng.choice(["match-ancestor", "match-ancestor", "no-match", "only-leaf", "prefix-only", "above", "hidden"])
+        mode = rng.choice(["match-ancestor", "match-ancestor", "no-match", "only-leaf", "prefix-only", "above", "hidden", "pid1", "two-instances"])
         anc = [kname(x) for x in chain]
         others = [x for x in NAME_POOL if kname(x) not in anc and kname(x) != kname(leaf) and x.decode("latin-1") not in ABOVE]
         lst = [rng.choice(others) for _ in range(rng.randrange(0, 6))]
@@ -52,6 +64,13 @@ def make_cases(tr):
             lst += cand
         elif mode == "above":
             lst.append(rng.choice(sorted(ABOVE)).encode("latin-1"))
+        elif mode == "pid1":
+            if PID1 is None or b"," in PID1:
+                continue
+            lst = [x for x in lst if x.decode("latin-1") not in ABOVE] + [PID1]     # the only listed ancestor is the init process itself
+        elif mode == "two-instances":
+            pos = rng.randrange(0, depth)
+            second = [anc[pos]]
         if not lst:
             lst = [rng.choice(others)]
         # list items cannot carry the separators of the chain / list / config syntax
@@ -66,18 +85,33 @@ def make_cases(tr):
         text = b",".join(lst)
         if len(text) > 900 or text.startswith(b" ") or text.endswith(b" ") or b"\t" in text[-1:]:
             continue
-        cases.append(dict(id=len(cases) + 1, chain=chain, leaf=leaf, lst=lst, text=text, mode=mode, depth=depth))
+        # a priming call with a different list is made first in the same (leaf) process: the decision must follow the list
+        # of the call being made, not whatever an earlier evaluation saw
+        prime = [rng.choice(others)] if (set(kname(x) for x in lst) & set(anc)) or mode in ("above", "pid1") else [anc[rng.randrange(0, depth)]]
+        if any(b"," in x or b";" in x or b'"' in x for x in prime):
+            prime = [b"zzz-nomatch"]
+        c = dict(id=len(cases) + 1, chain=chain, leaf=leaf, lst=lst, text=text, mode=mode, depth=depth, prime=b",".join(prime))
+        if mode == "two-instances":
+            if any(b"," in x or b";" in x or b'"' in x for x in second):
+                continue
+            c["second"] = second[0]
+        cases.append(c)
     return cases
 
 
 def script_fn(c, B, s):
-    conf = b"[snoopy]\nmessage_format = \"M%d\"\noutput = socket:%s\nfilter_chain=\"exclude_spawns_of:%s\"\n" % (c["id"], B.sock.encode(), c["text"])
+    chain = b"exclude_spawns_of:" + c["text"]
+    if c.get("second") is not None:
+        chain += b";exclude_spawns_of:" + c["second"]          # two instances of the filter in one chain
+    conf = b"[snoopy]\nmessage_format = \"M%d\"\noutput = socket:%s\nfilter_chain=\"%s\"\n" % (c["id"], B.sock.encode(), chain)
     s.fork(c["id"])
-    s.conf(conf)
     if c["mode"] == "hidden":
         s.raw("nostate")
         s.raw("hideproc")
     s.raw("chain " + ",".join(x.hex() for x in c["chain"] + [c["leaf"]]))
+    s.conf(b"[snoopy]\nmessage_format = \"P%d\"\noutput = devnull\nfilter_chain=\"exclude_spawns_of:%s\"\n" % (c["id"], c["prime"]))
+    s.call(c["id"] + 5000000, "execve", b"/bin/prime", [b"prime"], [b"E=1"], -1, 2)
+    s.conf(conf)
     s.call(c["id"], "execve", b"/bin/l%d" % c["id"], [b"leaf"], [b"E=1"], -1, 2)
     s.endfork()
     if c["mode"] == "hidden":
@@ -100,6 +134,8 @@ def check_fn(c, evs, B):
         return
     names = {kname(x) for x in c["chain"]} | {a.encode("latin-1") for a in ABOVE}
     items = {x for x in c["lst"] if x != b""}
+    if c.get("second") is not None:
+        items.add(c["second"])
     if c["mode"] == "hidden":
         want = True
     else:
